@@ -182,3 +182,18 @@ claim("C19", "proof",
       "Trusted: Coq kernel; Eigen's SelfAdjointEigenSolver (the constrained solve is an oracle of the model); extraction; harness.",
       "Coq proof (search invariants; bilinear algebra over lists) + candidate-replay correspondence",
       "DESIGN.md section 6, C19")
+
+claim("C20", "proof",
+      "Coq theorems: the build phase's announced total is the size of the full 2^N-ary tree; for every shape of pruned / "
+      "collapsed / ambiguous cells and EVERY order of tick events the counter ends exactly at the total and never overshoots; "
+      "exactly one child arrival completes an ambiguous cell; the walk phase ticks exactly the live cells (singletons "
+      "excluded, with the all-singleton branch refuted as non-terminating); ObjectPool::reset's block striding is a "
+      "permutation of the blocks for every worker count and the (repaired) nested reset ticks num_blocks, with the old code "
+      "refuted; the reported fraction is in [0,1], monotone in counters and phases, and exactly 1 on completion; finish() is "
+      "idempotent and never unlocks an unlocked mutex, with the old code refuted.  Tie: announced totals of the implementation "
+      "== the extracted model's (T(3, level); live cells of the implementation's own tree shape dumped between the phases), "
+      "final counters == totals.  Oracle: Mesh::render with a recording handler over random shapes x 3 algorithms x workers "
+      "1..16 x resolutions incl. root-is-a-leaf renders; finish twice, destroy before / during a phase under a watchdog.",
+      "Trusted: Coq kernel (no axioms); extraction; harness RecHandler; OS schedules are sampled, the theorems cover all tick orders.",
+      "Coq proof (tree induction, permutation invariance, Q arithmetic) + extraction-based correspondence",
+      "DESIGN.md section 6, C20")
